@@ -249,6 +249,29 @@ func GoodAppendResultUsed(xs []int) []int {
 	return xs
 }
 
+// ---- length measured before a loop that appends ---------------------------------
+
+type recBuf struct {
+	data []byte
+	offs []int
+}
+
+func (r *recBuf) BadStaleLen(vals [][]byte) {
+	start := len(r.data)
+	for _, v := range vals {
+		r.offs = append(r.offs, start)
+		r.data = append(r.data, v...)
+	}
+}
+
+func (r *recBuf) GoodFreshLen(vals [][]byte) {
+	for _, v := range vals {
+		start := len(r.data)
+		r.offs = append(r.offs, start)
+		r.data = append(r.data, v...)
+	}
+}
+
 // ---- E5 provenance ---------------------------------------------------------
 
 type Bits struct{ w []uint64 }
